@@ -84,7 +84,11 @@ def miri(shards_by_tier, scale_by_tier=None, timeout_s=3000):
                 path = os.path.join(rp, "%s-miri-seed%d-shard%d.txt" % (prop, seed, k))
                 with open(path, "w") as fh:
                     fh.write("# Miri diagnostic; re-run with:\n# MIRIFLAGS=-Zmiri-disable-isolation %s\n\n%s\n" % (cmdline, err[-6000:]))
-                violations.append({"clause": "miri", "signature": "%s:miri:%s:%s" % (prop, kind.replace(" ", "-"), frame), "message": "Miri: %s" % first[:300], "replay": path})
+                if prop == "C17":
+                    violations.append({"clause": "miri", "signature": "%s:miri:%s:%s" % (prop, kind.replace(" ", "-"), frame), "message": "Miri: %s" % first[:300], "replay": path})
+                else:
+                    # undefined behaviour is C17's subject; for another property the run can simply not be trusted
+                    inconclusive = "Miri diagnostic while running this property's workload (%s at %s; a C17 matter, see %s)" % (kind, frame, path)
             else:
                 inconclusive = "Miri shard %d failed to run (rc=%s): %s" % (k, rc, err.strip().splitlines()[-1][:200] if err.strip() else "")
         return {"name": "E2 Miri (%d process%s, --tier small, scale %s)" % (n, "es" if n > 1 else "", scale), "wall_s": round(time.time() - t0, 1), "rc": 0 if not violations else 1,
@@ -123,7 +127,10 @@ def asan(tier_arg_by_tier, timeout_s=3000):
             path = os.path.join(rp, "%s-asan-seed%d.txt" % (prop, seed))
             with open(path, "w") as fh:
                 fh.write("# ASan report; re-run with:\n# ASAN_OPTIONS=%s %s\n\n%s\n" % (e["ASAN_OPTIONS"], " ".join(cmd), p.stderr[-8000:]))
-            violations.append({"clause": "asan", "signature": "%s:asan:%s" % (prop, frame), "message": "ASan: %s" % first[:300], "replay": path})
+            if prop == "C17":
+                violations.append({"clause": "asan", "signature": "%s:asan:%s" % (prop, frame), "message": "ASan: %s" % first[:300], "replay": path})
+            else:
+                return {"name": name, "wall_s": round(time.time() - t0, 1), "rc": 1, "inconclusive": "ASan report while running this property's workload (at %s; a C17 matter, see %s)" % (frame, path)}
         elif p.returncode != 0 or not os.path.exists(out):
             return {"name": name, "wall_s": round(time.time() - t0, 1), "rc": p.returncode, "inconclusive": "ASan run failed rc=%s: %s" % (p.returncode, p.stderr.strip().splitlines()[-1][:200] if p.stderr.strip() else "")}
         summary = {"asan_reports": len(violations)}
